@@ -1,7 +1,7 @@
 """C19 - a block stays usable and unchanged across library calls.
 
-E3: explicit-state search over call histories on ONE block object.  Alphabet (10 operations): synthesize_trials with
-IterateSATGen / RandomGen / IterateGen / CMSGen, print_experiments, tabulate_experiments, save_experiments_csv,
+E3: explicit-state search over call histories on ONE block object.  Alphabet (11 operations): synthesize_trials with
+IterateSATGen / RandomGen (2 and 20 requested) / IterateGen / CMSGen, print_experiments, tabulate_experiments, save_experiments_csv,
 experiments_to_tuples, experiments_to_dicts, sample_mismatch_experiment (their experiments argument is the most recent
 synthesized result, or a result synthesized from a separate fresh block when there is none yet).
 Blocks: plain; implied derived factor; hidden weight factor with a rewritten constraint; continuous factor; derived
@@ -19,13 +19,14 @@ import random
 from vt import core, dsw, gen, build as B, ref as R
 
 PROP = 'C19'
-RULE = ('6 representative blocks x all histories of length <= 3 (thorough 4) over 10 operations; item = (block, first operation); '
+RULE = ('6 representative blocks x all histories of length <= 3 (thorough 4) over 11 operations; item = (block, first operation); '
         'states = distinct canonical block states seen, transitions = operations executed; non-trivial = the history contains a synthesis '
         'call after some other call.')
 ASSUMPTIONS = ['validity of the discrete part by the reference membership oracle (vt/ref.py); continuous values are C22\'s subject']
 BUDGET_S = {'quick': 150, 'thorough': 1200}
 DEPTH = {'quick': 3, 'thorough': 4}
-OPS = ['synth_sat', 'synth_rnd', 'synth_iter', 'synth_cms', 'print', 'tabulate', 'csv', 'tuples', 'dicts', 'mismatch']
+OPS = ['synth_sat', 'synth_rnd', 'synth_rnd_many', 'synth_iter', 'synth_cms', 'print', 'tabulate', 'csv', 'tuples', 'dicts', 'mismatch']
+MANY = 20
 BLOCKS = ['plain', 'implied', 'hidden', 'continuous', 'derived_continuous', 'repeat_preamble']
 
 
@@ -61,7 +62,10 @@ def make(kind):
             design += [Y, Z]
             from sweetpea._internal.constraint import ContinuousConstraint
             cons = [ContinuousConstraint([X], lambda x: x > 0.05)]
-            cols += ['Y', 'Z']
+            Lf = sp.ContinuousFactor('L', distribution=sp.CustomDistribution(lambda a, b: 10.0 * (a == 'a1') + 1.0 * (b == 'b1'),
+                                                                            [objs['A'], objs['B']]))
+            design += [Lf]
+            cols += ['Y', 'Z', 'L']
         block = sp.CrossBlock(design, [objs['A']], cons)
         return block, spec, cols
     objs, block = B.build(spec)
@@ -96,6 +100,21 @@ def seed_experiments(kind):
     return [dict((k, list(v)) for k, v in e.items()) for e in _SEED[kind]]
 
 
+_FRESHN = {}
+
+
+def fresh_count(kind, op):
+    """how many sequences the same call returns on a block nothing else has touched"""
+    if (kind, op) not in _FRESHN:
+        import numpy
+        random.seed(7); numpy.random.seed(7)
+        block, _, _ = make(kind)
+        w = {'block': block, 'last': None, 'kind': kind}
+        obs = apply_op(w, op)
+        _FRESHN[(kind, op)] = len(obs[1]) if obs[0] == 'synth' else None
+    return _FRESHN[(kind, op)]
+
+
 def apply_op(world, op):
     """-> observation ('ok', ...) | ('raises', exc name, message)"""
     import sweetpea as sp
@@ -103,8 +122,9 @@ def apply_op(world, op):
     exps = world['last'] if world['last'] else seed_experiments(world['kind'])
     try:
         if op.startswith('synth_'):
-            g = {'synth_sat': sp.IterateSATGen, 'synth_rnd': sp.RandomGen, 'synth_iter': sp.IterateGen, 'synth_cms': sp.CMSGen}[op]
-            res = core.quiet(sp.synthesize_trials, block, 2, g)
+            g = {'synth_sat': sp.IterateSATGen, 'synth_rnd': sp.RandomGen, 'synth_rnd_many': sp.RandomGen, 'synth_iter': sp.IterateGen,
+                 'synth_cms': sp.CMSGen}[op]
+            res = core.quiet(sp.synthesize_trials, block, MANY if op == 'synth_rnd_many' else 2, g)
             world['last'] = res
             return ('synth', res)
         if op == 'print':
@@ -166,8 +186,14 @@ def run_item(item):
                     bad = core.viol('call_raises', dict(sig, exc=obs[1]), history=list(hist), message=obs[2])
                 elif obs[0] == 'synth':
                     res = obs[1]
+                    want_n = fresh_count(kind, op)
                     if not res:
                         bad = core.viol('synthesis_returns_nothing', sig, history=list(hist))
+                    elif len(res) != want_n:
+                        bad = core.viol('fewer_sequences_than_on_a_fresh_block', sig, history=list(hist), returned=len(res), fresh=want_n)
+                    elif 'L' in cols and any(list(e['L']) != [10.0 * (a == 'a1') + 1.0 * (b == 'b1') for a, b in zip(e['A'], e['B'])] for e in res):
+                        bad = core.viol('continuous_values_do_not_match_their_inputs', sig, history=list(hist),
+                                        example=[[list(e['A']), list(e['B']), list(e['L'])] for e in res][:1])
                     else:
                         keys = sorted(str(k) for k in res[0].keys())
                         if keys != sorted(cols):
